@@ -2,6 +2,7 @@ import OsacaVerif.Model.Workers
 import OsacaVerif.Model.LcdPost
 import OsacaVerif.Lemmas.Workers
 import OsacaVerif.Lemmas.LcdPost
+import OsacaVerif.Spec.LcdSet
 /-
   C16 — LCD result is independent of process scheduling and worker count.
 
@@ -211,5 +212,122 @@ example :
       = [([1, 2], (8, [(1, 3), (2, 5)])), ([2], (5, [(2, 5)]))] := by decide +kernel
 example : sumByKeyB ([[2, 1001, 1002], [1, 2, 1001], [2, 1002]].map
     (norm sumExact (fun s _ => if s % 1000 = 1 then 3 else 5) 1000)) = true := by decide +kernel
+
+/-! ### model ↔ Spec -/
+
+/-- the slices of the model satisfy the Spec's covering predicate -/
+theorem partition_meets_spec (kernel : List Nat) (n : Nat) (hn : 1 ≤ n) :
+    Spec.Lcd.coversB kernel (slices kernel n) = true := by
+  simp [Spec.Lcd.coversB, partition_covers kernel n hn]
+
+theorem ltPair_eq_not_lePair (x y : Nat × Rat) : Spec.Lcd.ltPair y x = !lePair x y := by
+  obtain ⟨x1, x2⟩ := x; obtain ⟨y1, y2⟩ := y
+  simp only [Spec.Lcd.ltPair, lePair]
+  by_cases h1 : y1 < x1
+  · have : ¬ x1 < y1 := by omega
+    have h3 : ¬ x1 = y1 := by omega
+    simp [h1, this, h3]
+  · by_cases h2 : x1 < y1
+    · have h3 : ¬ y1 = x1 := by omega
+      simp [h1, h2, h3]
+    · have h3 : x1 = y1 := by omega
+      subst h3
+      simp only [Nat.lt_irrefl, false_or, true_and, decide_false, Bool.false_or, beq_self_eq_true, Bool.true_and]
+      by_cases h4 : x2 ≤ y2
+      · have : ¬ y2 < x2 := Rat.not_lt.mpr h4
+        simp [h4, this]
+      · have : y2 < x2 := Rat.not_le.mp h4
+        simp [h4, this]
+
+theorem insertSorted_eq (x : Nat × Rat) (l : List (Nat × Rat)) :
+    Spec.Lcd.insertSorted x l = insertBy lePair x l := by
+  induction l with
+  | nil => rfl
+  | cons y ys ih =>
+    simp only [Spec.Lcd.insertSorted, insertBy, ltPair_eq_not_lePair, ih]
+    cases lePair x y <;> simp
+
+theorem canon_eq_sortKey (k : Key) : Spec.Lcd.canon k = sortKey k := by
+  unfold Spec.Lcd.canon sortKey isort
+  induction k with
+  | nil => rfl
+  | cons x xs ih => simp only [List.foldr_cons, ih, insertSorted_eq]
+
+theorem edges_eq_pairwise (p : List Nat) : Spec.Lcd.edges p = pairwise p := by
+  induction p with
+  | nil => rfl
+  | cons a r ih =>
+    cases r with
+    | nil => rfl
+    | cons b r' => simp only [Spec.Lcd.edges, pairwise, ih]
+
+theorem normSrc_eq_mod (offset s : Nat) (h : s < 2 * offset) : normSrc offset s = s % offset := by
+  unfold normSrc
+  split
+  · next hge =>
+    have : s - offset < offset := by omega
+    rw [Nat.mod_eq_sub_mod hge, Nat.mod_eq_of_lt this]
+  · next hlt => rw [Nat.mod_eq_of_lt (by omega)]
+
+theorem mem_pairwise_left {α : Type} (l : List α) (sd : α × α) (h : sd ∈ pairwise l) : sd.1 ∈ l := by
+  induction l with
+  | nil => simp [pairwise] at h
+  | cons a r ih =>
+    cases r with
+    | nil => simp [pairwise] at h
+    | cons b r' =>
+      simp only [pairwise, List.mem_cons] at h
+      rcases h with h | h
+      · subst h; simp
+      · exact List.mem_cons_of_mem _ (ih (by simpa using h))
+
+theorem foldl_add_eq (a : Rat) (l : List Rat) :
+    l.foldl (· + ·) a = a + l.foldr (· + ·) 0 := by
+  induction l generalizing a with
+  | nil => simp [Rat.add_zero]
+  | cons x xs ih => simp only [List.foldl_cons, List.foldr_cons, ih, Rat.add_assoc]
+
+theorem sumExact_eq_foldr (l : List Rat) : sumExact l = l.foldr (· + ·) 0 := by
+  unfold sumExact
+  rw [foldl_add_eq, Rat.zero_add]
+
+/-- **norm_eq_cycleOf**: for paths of the doubled kernel (all nodes `< 2·offset`) the model's
+    contribution of a path is exactly the Spec's cycle of that path -/
+theorem norm_eq_cycleOf (lat : Nat → Nat → Rat) (offset : Nat) (p : Path)
+    (hp : ∀ s ∈ p, s < 2 * offset) :
+    norm sumExact lat offset p = ((Spec.Lcd.cycleOf lat offset p).2, (Spec.Lcd.cycleOf lat offset p).1) := by
+  have hes : latPath lat offset p
+      = (Spec.Lcd.edges p).map (fun sd => (sd.1 % offset, lat sd.1 sd.2)) := by
+    unfold latPath
+    rw [edges_eq_pairwise]
+    apply List.map_congr_left
+    intro sd hsd
+    rw [normSrc_eq_mod offset sd.1 (hp _ (mem_pairwise_left p sd hsd))]
+  simp only [norm, Spec.Lcd.cycleOf, hes, canon_eq_sortKey, sumExact_eq_foldr]
+
+/-- every dictionary value is the Spec's cycle of one of the paths -/
+theorem post_sound_spec (lat : Nat → Nat → Rat) (offset : Nat) (l : List Path)
+    (hl : ∀ p ∈ l, ∀ s ∈ p, s < 2 * offset)
+    (x : List Nat × Entry) (hx : x ∈ post sumExact lat offset l) :
+    ∃ p ∈ l, (x.2.2, x.2.1) = Spec.Lcd.cycleOf lat offset p := by
+  obtain ⟨⟨p, hp, e⟩, _⟩ := post_sound sumExact lat offset l x hx
+  refine ⟨p, hp, ?_⟩
+  rw [e, norm_eq_cycleOf lat offset p (hl p hp)]
+
+/-- every path's Spec cycle is a dictionary value (no cycle lost) when different cycles have
+    different line lists -/
+theorem post_complete_spec (lat : Nat → Nat → Rat) (offset : Nat) (l : List Path)
+    (hl : ∀ p ∈ l, ∀ s ∈ p, s < 2 * offset)
+    (hu : LinesUnique (l.map (norm sumExact lat offset))) (p : Path) (hp : p ∈ l) :
+    ∃ x ∈ post sumExact lat offset l, (x.2.2, x.2.1) = Spec.Lcd.cycleOf lat offset p := by
+  refine ⟨_, post_complete sumExact lat offset l (sumExact_sumByKey lat offset l) hu p hp, ?_⟩
+  rw [norm_eq_cycleOf lat offset p (hl p hp)]
+
+-- non-vacuity: a path of the doubled kernel and its Spec cycle
+example : Spec.Lcd.cycleOf (fun s _ => if s % 1000 = 1 then 3 else 5) 1000 [2, 1001, 1002]
+    = ([(1, 3), (2, 5)], 8) := by decide +kernel
+example : Spec.Lcd.agreesB (fun s _ => if s % 1000 = 1 then 3 else 5) 1000
+    [[2, 1001, 1002], [1, 2, 1001], [2, 1002]] [([(1, 3), (2, 5)], 8), ([(2, 5)], 5)] = true := by
+  decide +kernel
 
 end OsacaVerif.Props.C16
